@@ -140,7 +140,7 @@ def _(c):
     _both = lambda x: x.a.tag("data") != "none" and x.a.tag("data_id") != "none"  # noqa: E731
     _idpath = lambda x: x.a.tag("data") != "none" or x.a.tag("data_id") != "none"  # noqa: E731
     c.raises("AssertionError", when=lambda x: z3.BoolVal(_both(x) or (_idpath(x) and x.a.tag("match") != "none")), ensures=unchanged_all, props=("C13",))
-    c.may_raise("Callback", ensures=None, name="callback raises")
+    c.may_raise("Callback", ensures=lambda x: unchanged_lists(x), props=("C13",), name="callback raises: a read-only operation leaves every pre-existing list (and, by its frame, every field and index) unchanged")
 
     def post(x):
         base = And(x.r != LNONE, fresh_list(x, x.r), unchanged_lists(x))
@@ -193,7 +193,7 @@ def _(c):
     _both = lambda x: x.a.tag("data") != "none" and x.a.tag("data_id") != "none"  # noqa: E731
     _idpath = lambda x: x.a.tag("data") != "none" or x.a.tag("data_id") != "none"  # noqa: E731
     c.raises("AssertionError", when=lambda x: z3.BoolVal(_both(x) or (_idpath(x) and x.a.tag("match") != "none")), ensures=unchanged_all, props=("C13",))
-    c.may_raise("Callback", ensures=None, name="callback raises")
+    c.may_raise("Callback", ensures=lambda x: unchanged_lists(x), props=("C13",), name="callback raises: a read-only operation leaves every pre-existing list (and, by its frame, every field and index) unchanged")
 
     def post(x):
         if not _idpath(x) and x.a.tag("match") == "val":
@@ -239,7 +239,7 @@ def _(c):
     idpath = lambda x: x.a.tag("data") != "none" or x.a.tag("data_id") != "none"  # noqa: E731
     c.raises("AssertionError", when=lambda x: z3.BoolVal(both(x) or (idpath(x) and x.a.tag("match") != "none")), ensures=unchanged_all, props=("C13",))
     c.raises("NotImplementedError", when=lambda x: z3.BoolVal(not idpath(x) and x.a.tag("match") == "none"), ensures=unchanged_all, props=("C13",))
-    c.may_raise("Callback", ensures=None, name="callback raises")
+    c.may_raise("Callback", ensures=lambda x: unchanged_lists(x), props=("C13",), name="callback raises: a read-only operation leaves every pre-existing list (and, by its frame, every field and index) unchanged")
 
     def post(x):
         if not idpath(x):
@@ -269,7 +269,7 @@ def _(c):
     t = lambda x, n: x.a.tag(n) != "none"  # noqa: E731
     c.raises("AssertionError", when=lambda x: z3.BoolVal((t(x, "data") and t(x, "data_id")) or ((t(x, "data") or t(x, "data_id")) and (t(x, "match") or t(x, "node_id"))) or (t(x, "match") and t(x, "node_id") and not (t(x, "data") or t(x, "data_id")))), ensures=unchanged_all, props=("C13",))
     c.raises("NotImplementedError", when=lambda x: z3.BoolVal(not (t(x, "data") or t(x, "data_id") or t(x, "match") or t(x, "node_id"))), ensures=unchanged_all, props=("C13",))
-    c.may_raise("Callback", ensures=None, name="callback raises")
+    c.may_raise("Callback", ensures=lambda x: unchanged_lists(x), props=("C13",), name="callback raises: a read-only operation leaves every pre-existing list (and, by its frame, every field and index) unchanged")
 
     def post(x):
         h0 = x.h0
@@ -299,7 +299,7 @@ def _(c):
     c.result_tag = "bool"
     c.modifies("llen", "litem", "lalloc")
     c.requires("wf", lambda x: wf0(x))
-    c.may_raise("Callback", ensures=None, name="callback raises")
+    c.may_raise("Callback", ensures=lambda x: unchanged_lists(x), props=("C13",), name="callback raises: a read-only operation leaves every pre-existing list (and, by its frame, every field and index) unchanged")
     c.ensures("result <=> some node carries calc_data_id(data)", lambda x: And(unchanged_lists(x), x.r == x.h0.ddom(x.h0._nodes_by_data_id(x.T), calc_id(x.h0, x.T, x.a.data))))
 
 
@@ -328,7 +328,7 @@ def _(c):
     c.raises("ValueError", when=lambda x: z3.BoolVal(isnode(x)), ensures=unchanged_all, props=("C09", "C13"))
     c.raises("KeyError", when=lambda x: z3.BoolVal(False) if isnode(x) else And(Not(by_node_id(x)), Not(group(x)[0])), ensures=unchanged_lists, props=("C09", "C13"))
     c.raises("AmbiguousMatchError", when=lambda x: z3.BoolVal(False) if isnode(x) else And(Not(by_node_id(x)), group(x)[0], x.h0.llen(group(x)[1]) > 1), ensures=unchanged_lists, props=("C09", "C13"))
-    c.may_raise("Callback", ensures=None, name="callback raises")
+    c.may_raise("Callback", ensures=lambda x: unchanged_lists(x), props=("C13",), name="callback raises: a read-only operation leaves every pre-existing list (and, by its frame, every field and index) unchanged")
     c.ensures("result: node_id first, then data_id, then data", lambda x: And(unchanged_lists(x), x.r == If(by_node_id(x), x.h0.dref(x.h0._node_by_id(x.T), x.a.data), x.h0.litem(group(x)[1], 0))))
 
 
